@@ -242,6 +242,11 @@ func (v *Verifier) VerifyFunc(key string, c *Contract, class map[string]string) 
 			}
 			e.inputs[n] = pv.L[i]
 		}
+		if _, isChan := coreType(t).(*types.Chan); isChan {
+			e.inputs["chlen("+p.Name()+")"] = Sub(e.chTail(st, pv.L[0]), e.chHead(st, pv.L[0]))
+			e.inputs["chcap("+p.Name()+")"] = e.chCap(pv.L[0])
+			e.inputs["chclosed("+p.Name()+")"] = e.chClosed(st, pv.L[0])
+		}
 		e.params[p.Name()] = pv
 		if len(args) == 0 && fn.Signature.Recv() != nil {
 			e.params["this"] = pv
@@ -436,6 +441,11 @@ func (e *Engine) entryMemoryWF(st *State, t types.Type, seen map[string]bool, de
 		}
 	case *types.Array:
 		e.entryMemoryWF(st, resolve(x.Elem(), nil), seen, depth+1)
+	case *types.Chan:
+		if !seen["chan"] {
+			seen["chan"] = true
+			e.chanEntryWF(st)
+		}
 	}
 	if tp, ok := t.(*types.TypeParam); ok {
 		if c := coreOf(tp); c != nil {
